@@ -198,7 +198,8 @@ def dist_xyz_meters(coord1: Coordinate, coord2: Coordinate) -> float:
     Returns:
         (float) the distance in meters
     """
-    return math.acos(sum([an*bn for an, bn in zip(coord1.xyz, coord2.xyz)])) * EARTH_RADIUS
+    dot = sum([an*bn for an, bn in zip(coord1.xyz, coord2.xyz)])
+    return math.acos(max(-1.0, min(1.0, dot))) * EARTH_RADIUS
 
 
 def do_bounds_overlap(bounds1: Tuple[float, float], bounds2: Tuple[float, float]):
